@@ -366,4 +366,79 @@ theorem printers_follow_source_formats :
     rcases v with ⟨n, val, x, r⟩
     cases x <;> cases r <;> simp [typesetOpts] <;> decide
 
+/-- ★ the constants of the state model are the constants of the sources (re-extracted on every run):
+    the order of `trap` lines = `Condition::iter` on the virtual system (EXIT first — derived `Ord` of the enum,
+    shape-checked by the plugin —, then the signals by number, `virtual/signal.rs`); the initial umask =
+    `Mode::default()`; the option-prefix characters = those `typeset`'s `try_parse_short` tests; the
+    symbolic-umask letters, operators, masks, separator = `Who::parse` / `Operator::parse` /
+    `Permission::parse` / `parse_clauses` (over all ASCII characters); the `umask -S` text = the pushes of
+    `format_symbolic`, for all 512 masks. -/
+theorem state_constants_match_sources :
+    condOrder = "EXIT" :: (sortNum (virtualSignals.filter fun p => condOrder.contains p.1)).map (·.1)
+    ∧ Listing.initialUmask = YashModel.Generated.ListingTables.initialUmask
+    ∧ optionPrefixChars = typesetOptionPrefixes
+    ∧ (∀ p ∈ whoChars, ∀ m, (parseWho [p.1, '='] m).2 = ['='] ∧ (parseWho [p.1, '='] 0).1 = p.2)
+    ∧ (∀ p ∈ umaskOperators, parseOp p.1 = some p.2)
+    ∧ (List.range 128).all (fun n =>
+        (parseOp (Char.ofNat n)).isSome == (umaskOperators.map (·.1)).contains (Char.ofNat n)) = true
+    ∧ (List.range 128).all (fun n => isPermChar (Char.ofNat n) == permChars.contains (Char.ofNat n)) = true
+    ∧ (∀ p ∈ permMasks, parsePerm [p.1] = some (.lit p.2 false, []))
+    ∧ (∀ c ∈ permCopyChars, parsePerm [c] ∈ [some (Perm.copyU, []), some (Perm.copyG, []), some (Perm.copyO, [])])
+    ∧ clauseSeparator = ','
+    ∧ (List.range 512).all (fun m => formatSymbolic m == formatPieces m) = true := by
+  refine ⟨by decide, by decide, by decide, ?_, by decide, by decide, by decide, by decide, by decide, by decide, ?_⟩
+  · intro p hp m
+    simp only [whoChars, List.mem_cons, List.not_mem_nil, or_false] at hp
+    rcases hp with rfl | rfl | rfl | rfl <;> simp [parseWho]
+  · set_option maxRecDepth 4000 in decide
+
+/-- ★ every file that calls the quoter (list re-extracted from yash-builtin / yash-semantics / yash-cli /
+    yash-prompt on every run; the extractor fails on an unclassified file) and is classified as a re-readable
+    listing is one of the printers the model transcribes; the only re-readable producer NOT modelled is
+    `command -v` (`command/identify.rs`). -/
+theorem listing_producers_modelled :
+    (∀ p ∈ quoteProducers, p.2 = "listing" → p.1 ∈ modelledPrinters)
+    ∧ (∀ f ∈ modelledPrinters, (f, "listing") ∈ quoteProducers)
+    ∧ (quoteProducers.filter (·.2 = "listing-unmodelled")).map (·.1) = ["yash-builtin/src/command/identify.rs"] := by
+  decide
+
+/-- ★ whole text, `alias`, STATE level: for EVERY state whose aliases are outside the cross-bracket case (names
+    without `=`: the built-in cannot define others), the listing — sorted entries, each given back as
+    `alias -- <entry>` — evaluates to exactly the aliases of the state, in order.  Names that are reserved words
+    (`if`, `{`), option-like names, values with newlines, quotes, `#` are all covered (no other hypothesis). -/
+theorem alias_state_rescript_recreates (s : State)
+    (h : ∀ a ∈ s.aliases, '=' ∉ a.1 ∧ crossBracket a.1 a.2 = false) :
+    listAlias s = ((sortBy (·.1) s.aliases).map printAlias).flatten
+    ∧ evalScript (aliasReScript (sortBy (·.1) s.aliases))
+        = some ((sortBy (·.1) s.aliases).map fun a => Effect.alias a.1 a.2) :=
+  ⟨rfl, alias_rescript_recreates _ (fun a ha => h a ((mem_sortBy _ _ a).mp ha))⟩
+
+example : evalScript (aliasReScript (sortBy (·.1) (({} : State).setAlias "if".toList "a\n#b 'c'".toList).aliases))
+    = some [Effect.alias "if".toList "a\n#b 'c'".toList] :=
+  (alias_state_rescript_recreates _ (by
+    intro a ha
+    simp [State.setAlias] at ha
+    subst ha
+    exact ⟨by decide, by decide⟩)).2
+
+/-- ★ whole text, `trap`, EVERY condition of the virtual system: `EXIT` and each of the signal names extracted from
+    `virtual/signal.rs` (not only the 7 conditions the generator uses), any actions (`-` of `trap -p` included):
+    the text evaluates to exactly the `trap -- action COND` effects, in order. -/
+theorem trap_any_condition_listing_text_recreates (ts : List (String × List Char))
+    (h : ∀ t ∈ ts, t.1 = "EXIT" ∨ t.1 ∈ virtualSignals.map (·.1)) :
+    evalScript ((ts.map printTrap).flatten) = some (ts.map fun t => Effect.trap t.1 t.2) := by
+  induction ts with
+  | nil => exact evalScript_nil
+  | cons t r ih =>
+    simp only [List.map_cons, List.flatten_cons]
+    have hq : quote t.1.toList = t.1.toList := by
+      rcases h t (by simp) with he | hm
+      · rw [he]; decide
+      · obtain ⟨p, hp, hpe⟩ := List.mem_map.mp hm
+        rw [← hpe]; exact signal_names_bare p hp
+    rw [trap_line_effects_gen t hq, ih (fun x hx => h x (by simp [hx]))]
+    rfl
+
+example : ("WINCH" : String) ∈ virtualSignals.map (·.1) := by decide
+
 end YashModel.Quote
